@@ -71,7 +71,7 @@ func zooCases(tier string, seed int64) []Case {
 	add := func(c Case) { c.Sub = -1; cs = append(cs, c) }
 	per := 40
 	if tier == "thorough" {
-		per = 2500
+		per = 8000
 	}
 	for i, e := range zoo.Types {
 		add(Case{Kind: "zero", Type: e.Name})
@@ -103,7 +103,7 @@ func zooCases(tier string, seed int64) []Case {
 	// class counts 1..24 through Bag
 	nb := 2
 	if tier == "thorough" {
-		nb = 50
+		nb = 200
 	}
 	for k := 0; k < nb; k++ {
 		add(Case{Kind: "bag", Seed: Mix(seed, 70000+k), Count: 24 * 4})
